@@ -902,3 +902,119 @@ package memberlist
 //@   hyp (forall x int :: prim[x] == 1 && hasNew[x] == 1)
 //@   hyp hasOld2[n] == 0 && (forall x int :: x != n ==> hasOld2[x] == hasOld[x])
 //@   concl connected(prim, hasOld2, hasNew)
+
+// ---------------------------------------------------------------------
+// C20: lifecycle safety of the public API (no-panic under the lock invariants at every lifecycle stage)
+// ---------------------------------------------------------------------
+//@ func (*Memberlist).LocalNode(m)
+//@   safety [C20]
+//@   requires ok: mlNet(m)
+//@ func (*Memberlist).UpdateNode(m, timeout)
+//@   safety [C20]
+//@   requires ok: mlNet(m)
+//@ func (*Memberlist).Members(m)
+//@   safety [C07,C20]
+//@   requires ok: mlNet(m)
+//@ func (*Memberlist).NumMembers(m)
+//@   safety [C07,C20]
+//@   requires ok: mlNet(m)
+//@ func (*Memberlist).Leave(m, timeout)
+//@   safety [C20]
+//@   panics documented
+//@   requires ok: mlNet(m)
+//@ func (*Memberlist).Shutdown(m)
+//@   safety [C20]
+//@   requires ok: mlNet(m)
+//@ func (*Memberlist).GetHealthScore(m)
+//@   safety [C20]
+//@   requires ok: mlNet(m)
+//@ func (*Memberlist).ProtocolVersion(m)
+//@   safety [C20]
+//@   requires ok: mlNet(m)
+//@ func (*Memberlist).Ping(m, node, addr)
+//@   safety [C19,C20]
+//@   requires ok: mlNet(m) && addr != nil
+//@ func (*Memberlist).SendToAddress(m, a, msg)
+//@   safety [C20]
+//@   requires ok: mlNet(m)
+//@ func (*Memberlist).SendBestEffort(m, to, msg)
+//@   safety [C20]
+//@   requires ok: mlNet(m) && to != nil
+//@ func (*Memberlist).SendReliable(m, to, msg)
+//@   safety [C20]
+//@   requires ok: mlNet(m) && to != nil
+//@ func (*Memberlist).sendUserMsg(m, a, sendBuf)
+//@   safety [C20]
+//@   modular
+//@   requires ok: mlNet(m)
+//@ func (*Memberlist).anyAlive(m)
+//@   safety [C20]
+//@   requires ok: mlNet(m)
+//@ func (*Memberlist).schedule(m)
+//@   safety [C20]
+//@   requires ok: mlNet(m)
+//@ func (*Memberlist).deschedule(m)
+//@   safety [C20]
+//@   requires ok: mlNet(m)
+//@ func (*Memberlist).setAlive(m)
+//@   safety [C20]
+//@   panics documented
+//@   requires ok: mlNet(m)
+//@ func (*Memberlist).Join(m, existing)
+//@   safety [C09,C20]
+//@   requires ok: mlNet(m)
+//@ func (*Memberlist).resolveAddr(m, hostStr)
+//@   modular
+//@   requires ok: mlNet(m)
+
+// ---------------------------------------------------------------------
+// Reaping (C03, C07, C20): moveDeadNodes / shuffleNodes / resetNodes
+// ---------------------------------------------------------------------
+//@ pure injective(s []*nodeState) bool := forall x int, y int :: 0 <= x && x < y && y < len(s) ==> s[x] != s[y]
+
+//@ func moveDeadNodes(nodes, gossipToTheDeadTime)
+//@   safety [C03,C07,C13,C20]
+//@   modular
+//@   requires nn: forall x int :: 0 <= x && x < len(nodes) ==> nodes[x] != nil
+//@   loop #1 invariant bounds [C03,C07]: 0 <= numDead && 0 <= i && i <= len(nodes) - numDead
+//@   loop #1 invariant elems [C07]: forall x int :: 0 <= x && x < len(nodes) ==> exists y int :: 0 <= y && y < len(nodes) && nodes[x] == old(nodes[y])
+//@   loop #1 invariant inj [C07]: old(injective(nodes)) ==> injective(nodes)
+//@   loop #1 invariant tail [C03,C07]: forall x int :: len(nodes) - numDead <= x && x < len(nodes) ==> dol(nodes[x].State)
+//@   ensures range [C03,C07]: 0 <= result && result <= len(nodes)
+//@   ensures elems [C07]: forall x int :: 0 <= x && x < len(nodes) ==> exists y int :: 0 <= y && y < len(nodes) && nodes[x] == old(nodes[y])
+//@   ensures inj [C07]: old(injective(nodes)) ==> injective(nodes)
+//@   ensures tail [C02,C03,C07]: forall x int :: result <= x && x < len(nodes) ==> dol(nodes[x].State)
+
+//@ func shuffleNodes(nodes)
+//@   trusted   // rand.Shuffle(n, swap) calls swap(i, j) with 0 <= i, j < n only: the slice is permuted in place
+//@   modular
+//@   assigns elems *nodeState
+//@   ensures elems: forall x int :: 0 <= x && x < len(nodes) ==> exists y int :: 0 <= y && y < len(nodes) && nodes[x] == old(nodes[y])
+//@   ensures inj: old(injective(nodes)) ==> injective(nodes)
+
+//@ pure regd(m *Memberlist, p *nodeState) bool := allocated(p) && has(m.nodeMap, p.Name) && m.nodeMap[p.Name] == p
+
+//@ func (*Memberlist).resetNodes(m)
+//@   safety [C03,C07,C13,C20]
+//@   monitor Memberlist.nodeLock
+//@   requires ok: mlOK(m)
+//@   loop #1 invariant idx [C07]: 0 <= deadIdx && deadIdx <= i && i <= len(m.nodes) && m.nodes == old(m.nodes)
+//@   loop #1 invariant reg [C07]: forall x int :: 0 <= x && x < len(m.nodes) ==> regd(m, m.nodes[x])
+//@   loop #1 invariant inj [C07]: injective(m.nodes)
+//@   loop #1 invariant tail [C02,C07]: forall x int :: deadIdx <= x && x < len(m.nodes) ==> dol(m.nodes[x].State)
+//@   loop #1 invariant notself [C20]: forall x int :: deadIdx <= x && x < i ==> m.nodes[x].Name != m.config.Name
+//@   loop #1 invariant map [C07]: forall n string :: has(m.nodeMap, n) == old(has(m.nodeMap, n)) && m.nodeMap[n] == old(m.nodeMap[n])
+//@   loop #1 invariant maplen [C07]: len(m.nodeMap) == old(len(m.nodeMap))
+//@   loop #2 invariant idx [C07]: 0 <= deadIdx && deadIdx <= i && i <= len(m.nodes) && m.nodes == old(m.nodes)
+//@   loop #2 invariant kept [C07]: forall x int :: 0 <= x && x < deadIdx ==> regd(m, m.nodes[x])
+//@   loop #2 invariant todo [C07,C20]: forall x int :: i <= x && x < len(m.nodes) ==> regd(m, m.nodes[x]) && dol(m.nodes[x].State) && m.nodes[x].Name != m.config.Name
+//@   loop #2 invariant inj [C07]: forall x int, y int :: 0 <= x && x < y && y < len(m.nodes) && (x < deadIdx || x >= i) && (y < deadIdx || y >= i) ==> m.nodes[x] != m.nodes[y]
+//@   loop #2 invariant mapsub [C01,C07]: forall n string :: has(m.nodeMap, n) ==> old(has(m.nodeMap, n)) && m.nodeMap[n] == old(m.nodeMap[n])
+//@   loop #2 invariant maplen [C07]: len(m.nodeMap) == old(len(m.nodeMap)) - (i - deadIdx)
+//@   loop #2 invariant gone [C02,C03,C07]: forall n string :: old(has(m.nodeMap, n)) && !has(m.nodeMap, n) ==> dol(old(m.nodeMap[n].State)) && n != m.config.Name
+//@   ensures Z-sub [C07]: forall x string :: has(m.nodeMap, x) ==> old(has(m.nodeMap, x)) && m.nodeMap[x] == old(m.nodeMap[x])
+//@   ensures Z-recs [C01,C07]: forall x string :: has(m.nodeMap, x) ==> recSame(m.nodeMap[x])
+//@   ensures Z-reap [C02,C03,C07,C20]: forall x string :: old(has(m.nodeMap, x)) && !has(m.nodeMap, x) ==> dol(old(m.nodeMap[x].State)) && x != m.config.Name
+//@   ensures Z-quiet [C01,C07]: quiet()
+//@   ensures Z-live [C07]: forall x string :: old(live(m, x)) == live(m, x)
+//@   ensures Z-timers [C06]: sameTimers(m)
